@@ -252,13 +252,19 @@ def _show_answer(a):
 
 
 def _retrace_canary_pred(ev):
-    # a frame query (its answer is a list of frame records, which the corrupted value is comparable with)
-    return ev["t"] == "q" and ev["sid"] == 1 and ev["q"]["t"] == "frame"
+    return ev["t"] == "q" and ev["sid"] == 1
 
 
 def _retrace_trace_corrupt(ev):
-    ev["got"]["cache"] = [{"canary": 1}]
-    ev["got"]["mapper"] = [{"canary": 1}]
+    # a wrong answer of the right JSON shape for the kind of query (TLC cannot compare a record with a string)
+    kind = ev["q"]["t"]
+    if kind in ("frame", "throwable"):
+        bad = [{"canary": 1}]
+    elif kind == "class":
+        bad = [[99, 97, 110, 97, 114, 121]]
+    else:
+        bad = [[[99, 97, 110], [97, 114, 121]]]
+    ev["got"] = {h: bad for h in ev["got"]}
     return ev
 
 
@@ -733,6 +739,7 @@ def c15(run, scratch):
             raise ToolError(f"C15: {len(modelled)} of {len(cases)} schedules were run")
         same = [e for e in modelled if e["model"]["total"] == len(e["canonical"]) and e["ok"] == e["model"]["ok"]
                 and e["any_fail"] == e["model"]["failed"] and len(e["sink"]) == e["model"]["sink_len"]]
+        run.evaluations += len(modelled)
         run.extra["schedules_from_tlc"] = len(cases)
         run.extra["runs_with_the_model_s_call_structure_and_outcome"] = len(same)
     for e in events:
